@@ -548,6 +548,9 @@ class Strftime(Op):
                         for fmt in ("%Y", "%Y%j", rng.choice(["%Y-%m-%d %j", "%F"]), "%Y %X %z"):
                             yield (m, t, fmt)
 
+    sibling = T.tp_sibling(1, ymin=1, ymax=9998)
+    sibling_rate = 0.25
+
     def line(self, a):
         return "strftime %s %s %s" % (a[0], T.tp_str(a[1]), hx(a[2]))
 
